@@ -334,3 +334,17 @@ PROPS["C18"]["level_text"] = ("Partial proof: plan shape (enabled modes only, po
     " about the planner model; agreement of latches and predicted size with the encoder is exploration with oracle plus planner/encoder model correspondence.")
 PROPS["C11"]["level_text"] = ("Partial proof: the planner never panics and always terminates (theorem over the planner model, all inputs);"
     " macro slicing never panics (C16 macro_total); the mode encoders are covered by encoder-model correspondence including injected plans; the rest is exploration under catch_unwind.")
+
+# C19 is now a theorem about the model of the whole planner (not only of the pruning step)
+PROPS["C19"]["level"] = "proof"
+PROPS["C19"]["unproved"] = []
+PROPS["C19"]["level_text"] = ("Proof: steps_linear (at most 216*(n+1)+5 calls of Plan::step for every message of n bytes, every symbol list, mode set and"
+    " written offset) and live_le_36 / live_plans_le_36 (at most 36 plans alive after every iteration) are kernel-checked theorems about the Lean"
+    " model of the whole planner; optimize_total shows the loop ends after at most n+1 iterations. The model is tied to optimize() by"
+    " correspondence on the returned plan, its cost, the implementation's step counter and its live-plan maximum (hook counters), and call by"
+    " call for remove_hopeless_cases; the instrumented counters are also checked against the bounds on adversarial long inputs.")
+PROPS["C19"]["level_note"] = ("Trusted: Lean kernel, standard axioms, the correspondence harness and the counting hooks (planner_count_step at both call sites of"
+    " step(), planner_note_live after pruning); the order sort_unstable_by_key leaves equal-cost plans in is an input of the model (logged permutation,"
+    " validated by the model), so the theorems hold for every order the sort could produce. Wall-clock time per step is not modelled: each step is"
+    " O(look-ahead) in the code; the property's bound is on the number of steps.")
+PROPS["C19"]["technique"] = "Lean 4 theorems over a hand-written model of the whole planner (induction over the main loop with a live-plan invariant) + model/implementation correspondence incl. step and live-plan counters"
